@@ -100,7 +100,7 @@ theorem C05.rewrite_shape (name : String) (idx : Nat) (b : Node) (b' : RNode) (h
 
 /-- (b) the rewrite gives up exactly when the body `refuses` the register: it contains a function literal,
 `x++`/`x--`, `x = …`/`x := …` (also as the variable of an inner loop), `++x`/`--x`, `m.x`, `del(x)`, a `quote(…)`,
-a direct call `eval(…)` (repo fix 7345903), or a macro literal with the parameter `x` (`refuses` is this list, as a
+a direct call `eval(…)` (repo fix 5c922e6), or a macro literal with the parameter `x` (`refuses` is this list, as a
 recursive predicate on the tree) -/
 theorem C05.rewrite_refuses (name : String) (idx : Nat) (b : RNode) :
     modifyR name idx b = none ↔ refuses name idx b = true := by
@@ -160,7 +160,7 @@ The parameter site (`extendFunctionEnv`) is driven for real by the `regrewrite` 
 is that text with `s.NoReg` ↦ `noReg`, `s.env.HasRegisters()` ↦ `f.hasRegisters`, `object.Constant` ↦ `isConstant`,
 `object.ReservedName` ↦ `reservedName` (`self`, `info`; the names of registered extension functions, the third kind, are
 told to the regrewrite suite per candidate by the harness).  The loop site's last conjunct `!s.env.IsOwnFunctionName(name)` (repo fix
-5c2e500: inside a named function its name means the function) is the counterpart of the parameter site's `!ownName`: both are
+07c7aea: inside a named function its name means the function) is the counterpart of the parameter site's `!ownName`: both are
 outside `registerEligible` (the model has no function name; the hook's function has none) and are covered by the eval suite.
 The parameter test is the same conjunction without `name != ""` (the empty name is a constant name:
 `isConstant "" = true`), with the integer test (`isInt` in `useRegister`) and `!ownName` (the parameter is not
